@@ -99,7 +99,63 @@ class _Handle:
     __hash__ = None
 
 
+def _twin_class():
+    """a class factory: every call makes a NEW node class with the same name and the same fields"""
+    import dataclasses
+
+    @dataclasses.dataclass(frozen=True)
+    class EqTwin(zoo.Expr):
+        v: int = 0
+    return EqTwin
+
+
+def directed_cases(rng, n):
+    """(1) one tree holds the SAME object at two positions, the other two separate content-equal nodes there, and an origin
+    differs below one of them (== compares positions, not objects); (2) nodes of two different classes that carry the same
+    class name and the same content (a subclass keeping its parent's name; a class factory called twice)"""
+    from props.c01 import _ShadeBase, Shade
+    for _ in range(n):
+        o = [zoo.gen_origin(rng) for _ in range(4)]
+        while type(o[3]) is type(o[2]) and o[3] == o[2]:
+            o[3] = zoo.gen_origin(rng)
+
+        def inner(changed: bool, depth: int):
+            x = zoo.Bin(zoo.Leaf(v=1, origin=o[0]), zoo.Leaf(v=2, origin=o[3] if changed else o[2]), origin=o[1])
+            for _d in range(depth):
+                x = zoo.Un(x, origin=o[1])
+            return x
+        depth = rng.choice([0, 1, 2])
+        shared = inner(False, depth)
+        a = zoo.Bin(shared, shared, origin=o[0])
+        which = rng.choice(["none", "first", "second"])
+        b = zoo.Bin(inner(which == "first", depth), inner(which == "second", depth), origin=o[0])
+        want = which == "none"
+        got = (a == b, b == a, a != b, b != a)
+        fail = None
+        if got != (want, want, not want, not want):
+            fail = (f"(a == b, b == a, a != b, b != a) = {got}, expected {(want, want, not want, not want)}: a holds one object at "
+                    f"both positions, b two separate equal nodes; origin changed below the {which} one")
+        yield Case("directed:shared-vs-separate", None, None, True,
+                   f"a=Bin(x, x) with x shared (wrapped {depth}x), b=Bin(x1, x2) separate copies, origin of a grandchild changed in: {which}",
+                   oracle_fail=fail, sig="eq|directed|shared-vs-separate")
+        v = rng.randint(0, 3)
+        b0, s0 = _ShadeBase(v=v), Shade(v=v)
+        first, second = _twin_class(), _twin_class()
+        f1, f2 = first(v=v), second(v=v)
+        fail = None
+        if (b0 == s0) or (s0 == b0) or not (b0 != s0):
+            fail = "a node == a node of ANOTHER class that carries the same class name (subclass keeping its parent's name)"
+        elif f2 is not None and ((f1 == f2) or (f2 == f1)):
+            fail = "a node == a node of ANOTHER class with the same qualified name (class factory called twice)"
+        elif not (b0 == _ShadeBase(v=v)) or not (s0 == Shade(v=v)):
+            fail = "== is False within one class"
+        yield Case("directed:same-name-classes", None, None, True, f"Shade(v={v}) vs same-named subclass; class factory twins",
+                   oracle_fail=fail, sig="eq|directed|same-name-classes")
+        del first, second, f1, f2
+
+
 def cases(rng: random.Random, tier: str):
+    yield from directed_cases(rng, 10 if tier == "quick" else 150)
     n = 250 if tier == "quick" else 6000
     for _ in range(n):
         g = zoo.Gen(rng, origins=True)
